@@ -81,3 +81,21 @@ contract("C09.group_copy", file="hed/models/hed_group.py", func="HedGroup.copy",
              "C09.copy.original_keeps_its_parent": "self._parent == old(self._parent)",
          },
          assume=["copy.deepcopy modelled as an allocation (the copied content is exercised by the bounded workload)"])
+
+# C09 "a duplicate name is reported and ignored": merging definition sources keeps the entry accepted first
+class_model("DefEntrySrc", {"source_context": "Opaque"})
+class_model("DefinitionDictM", {"defs": "Map[Str,DefEntrySrc]", "_issues": "List[Issue]"})
+contract("C09.add_definition", file=D, func="DefinitionDict._add_definition",
+         params={"self": "DefinitionDictM", "def_tag": "Str", "def_value": "DefEntrySrc"}, returns=None, enc="native",
+         modifies=["self.defs", "self._issues"],
+         ensures={
+             "C09.duplicate.first_entry_kept": "implies(def_tag in old(self.defs), same_keys(self.defs, old(self.defs))"
+                                               " and forall_str(lambda k: implies(k in old(self.defs), self.defs[k] is old(self.defs)[k])))",
+             "C09.duplicate.reported_once": "implies(def_tag in old(self.defs), len(self._issues) == len(old(self._issues)) + 1"
+                                            " and self._issues[len(self._issues) - 1].kind == 'duplicateDefinition' and self._issues[len(self._issues) - 1].code == 'DEFINITION_INVALID'"
+                                            " and self._issues[len(self._issues) - 1].severity == 1)",
+             "C09.new_name.added_and_nothing_else_changes": "implies(def_tag not in old(self.defs), map_eq_except_add(self.defs, old(self.defs), def_tag)"
+                                                            " and self.defs[def_tag] is def_value and len(self._issues) == len(old(self._issues))"
+                                                            " and forall_str(lambda k: implies(k in old(self.defs), self.defs[k] is old(self.defs)[k])))",
+             "C09.issues.earlier_issues_kept": "all(self._issues[k] is old(self._issues)[k] for k in range(len(old(self._issues))))",
+         })
